@@ -34,6 +34,7 @@ fn make_ctx(prop: &str, tier: Tier, seed: u64, profile: &str) -> Result<Ctx, Str
     strict: false,
     start: Instant::now(),
     replay_dir: format!("{}/replays", verif_root()),
+    shrink_iters: std::sync::atomic::AtomicU32::new(4096),
   })
 }
 
